@@ -272,6 +272,7 @@ type Trace struct {
 	Synced   *sim.Snapshot `json:"afterSync,omitempty"`
 	Final    *sim.Snapshot `json:"final,omitempty"`
 	Err      string        `json:"reconcileError,omitempty"`
+	Marks    []string      `json:"marks,omitempty"`
 	Bindings []sim.BindRec `json:"bindings,omitempty"`
 }
 
@@ -317,10 +318,13 @@ func execute(c *Case) *outcome {
 	s.Begin(0, c.Faults)
 	_, err, pn := proc.Reconcile(c.Pod.NS, c.Pod.Name)
 	o.calls = s.TakeCalls()
+	marks := s.TakeMarks()
 	o.trace.Faulted = strs(o.calls)
+	o.trace.Marks = marks
 	if err != nil {
 		o.trace.Err = err.Error()
 	}
+	bindFailed := err != nil || contains(marks, "bind-failed")
 	o.crashed = s.Crashed()
 	s1 := s.Snapshot()
 	o.trace.After = s1
@@ -330,7 +334,7 @@ func execute(c *Case) *outcome {
 	}
 	fi := analyse(c, o.calls)
 	o.nontrivial = fi.partialEffect
-	if o.excluded = knownTrigger(c, s0, o.calls, err != nil, o.crashed); o.excluded != "" {
+	if o.excluded = knownTrigger(c, s0, o.calls, bindFailed, o.crashed); o.excluded != "" {
 		return o
 	}
 
